@@ -76,10 +76,12 @@ theorem specBody_sim_of_kwList (env : Spec.Env) (rec : Spec.Rec) (scope : List N
     (ha : assertsOf env n j = assertsOf env n' j) (hr : n'.ref = n.ref)
     (hui : n'.unevaluatedItems = n.unevaluatedItems) (hup : n'.unevaluatedProperties = n.unevaluatedProperties) :
     OutSim (specBody env rec scope s j n) (specBody env rec scope s j n') := by
-  have e1 : Spec.kwUnevaluatedItems (rec (scope ++ [s])) n' j = Spec.kwUnevaluatedItems (rec (scope ++ [s])) n j := by
-    funext ev; unfold Spec.kwUnevaluatedItems; rw [hui]
-  have e2 : Spec.kwUnevaluatedProps (rec (scope ++ [s])) n' j = Spec.kwUnevaluatedProps (rec (scope ++ [s])) n j := by
-    funext ev; unfold Spec.kwUnevaluatedProps; rw [hup]
+  have e1 : Spec.kwUnevaluatedItems (rec (scope ++ [s])) (Spec.vocab env.draft n') j =
+      Spec.kwUnevaluatedItems (rec (scope ++ [s])) (Spec.vocab env.draft n) j := by
+    funext ev; unfold Spec.kwUnevaluatedItems; simp only [Spec.vocab, hui]
+  have e2 : Spec.kwUnevaluatedProps (rec (scope ++ [s])) (Spec.vocab env.draft n') j =
+      Spec.kwUnevaluatedProps (rec (scope ++ [s])) (Spec.vocab env.draft n) j := by
+    funext ev; unfold Spec.kwUnevaluatedProps; simp only [Spec.vocab, hup]
   unfold specBody
   rw [hr, ← ha, e1, e2]
   split
@@ -92,8 +94,8 @@ theorem specBody_sim_of_kwList (env : Spec.Env) (rec : Spec.Rec) (scope : List N
     · exact hsq.elim
     · exact hsq.elim
     · exact specTail_sim (conj_sim (PR.of_all₂ hsq)) _
-        (fun e1 e2 he => OutSim.of_eq (kwUnevaluatedItems_congr_ev _ n j he))
-        (fun e1 e2 he => OutSim.of_eq (kwUnevaluatedProps_congr_ev _ n j he))
+        (fun e1 e2 he => OutSim.of_eq (kwUnevaluatedItems_congr_ev _ _ j he))
+        (fun e1 e2 he => OutSim.of_eq (kwUnevaluatedProps_congr_ev _ _ j he))
 
 /-! ## replacing one schema object -/
 
@@ -435,10 +437,12 @@ theorem specBody_eq_of_asserts (env : Spec.Env) (rec : Spec.Rec) (scope : List N
     (ha : assertsOf env n j = assertsOf env n' j) (hr : n'.ref = n.ref)
     (hui : n'.unevaluatedItems = n.unevaluatedItems) (hup : n'.unevaluatedProperties = n.unevaluatedProperties) :
     specBody env rec scope s j n = specBody env rec scope s j n' := by
-  have e1 : Spec.kwUnevaluatedItems (rec (scope ++ [s])) n' j = Spec.kwUnevaluatedItems (rec (scope ++ [s])) n j := by
-    funext ev; unfold Spec.kwUnevaluatedItems; rw [hui]
-  have e2 : Spec.kwUnevaluatedProps (rec (scope ++ [s])) n' j = Spec.kwUnevaluatedProps (rec (scope ++ [s])) n j := by
-    funext ev; unfold Spec.kwUnevaluatedProps; rw [hup]
+  have e1 : Spec.kwUnevaluatedItems (rec (scope ++ [s])) (Spec.vocab env.draft n') j =
+      Spec.kwUnevaluatedItems (rec (scope ++ [s])) (Spec.vocab env.draft n) j := by
+    funext ev; unfold Spec.kwUnevaluatedItems; simp only [Spec.vocab, hui]
+  have e2 : Spec.kwUnevaluatedProps (rec (scope ++ [s])) (Spec.vocab env.draft n') j =
+      Spec.kwUnevaluatedProps (rec (scope ++ [s])) (Spec.vocab env.draft n) j := by
+    funext ev; unfold Spec.kwUnevaluatedProps; simp only [Spec.vocab, hup]
   have e3 : Spec.kwRef env (rec (scope ++ [s])) s n' j = Spec.kwRef env (rec (scope ++ [s])) s n j := by
     unfold Spec.kwRef; rw [hr]
   unfold specBody
